@@ -160,3 +160,76 @@ func VH_C15_sweep(h *vrt.H) {
 	h.Assert(pos == len(moved), "moved-entries-are-whole-queue-entries")
 	h.Reach("end")
 }
+
+// VH_C15_sweep_backlog: the sweep after a long gap between two blocks. A backlog of nKeys
+// maturity times (one second apart, one unlock each, the first slot 1..2) is in the unlock
+// queue and block time falls anywhere before, inside or after it. Every matured unlock is handed over
+// exactly once in maturity order, its slot is deleted, and every slot that is not yet mature is
+// kept whole; a second sweep at the same block time moves nothing. The backlog is larger than
+// every per-block cap in the code base (16) and than the powers of two a batching limit would
+// plausibly use (64 in the quick tier, up to 256 in the thorough tier), so a limit added to the sweep is exercised on both sides.
+func VH_C15_sweep_backlog(h *vrt.H) {
+	k, ctx := vhKeeper(h)
+	vhMust(k.Params.Set(ctx, vhParams()))
+	nKeys := 70
+	if h.Thorough() {
+		nKeys = 260
+	}
+	vhMust(k.EthTxQueue.Set(ctx, types.EthTxQueue{}))
+	const base = int64(1_700_000_000)
+	// block time is a free value around the backlog; which slots are mature is for the solver
+	nowSec := int64(h.U32("now"))
+	h.Assume(nowSec >= base-2 && nowSec <= base+int64(nKeys)+2)
+	now := time.Unix(nowSec, 0).UTC()
+	ctx = ctx.WithBlockTime(now)
+	first := h.Choose("firstSlotCount", 1, 2)
+	id := uint64(1)
+	firstID := make([]uint64, nKeys)
+	counts := make([]int, nKeys)
+	for i := 0; i < nKeys; i++ {
+		counts[i] = 1
+		if i == 0 {
+			counts[i] = first
+		}
+		firstID[i] = id
+		var us types.Unlocks
+		for c := 0; c < counts[i]; c++ {
+			us.Unlocks = append(us.Unlocks, &types.Unlock{Id: id, Amount: math.NewIntFromUint64(id)})
+			id++
+		}
+		vhMust(k.UnlockQueue.Set(ctx, time.Unix(base+int64(i), 0).UTC(), us))
+	}
+	err := k.DequeueMatureUnlocks(ctx)
+	h.Assert(err == nil, "sweep-never-fails")
+	if err != nil {
+		return
+	}
+	post, perr := k.EthTxQueue.Get(ctx)
+	vhMust(perr)
+	want, cut := 0, 0
+	for i := 0; i < nKeys; i++ {
+		if base+int64(i) <= nowSec {
+			want += counts[i]
+			cut = i + 1
+		}
+	}
+	h.NoteU64("matureSlots", uint64(cut))
+	h.Assert(len(post.Unlocks) == want, "backlog-every-matured-unlock-handed-over-exactly-once")
+	for q := 0; q < len(post.Unlocks) && q < want; q++ {
+		h.Assert(post.Unlocks[q].Id == uint64(q+1), "backlog-maturity-order")
+	}
+	for i := 0; i < nKeys; i++ {
+		got, gerr := k.UnlockQueue.Get(ctx, time.Unix(base+int64(i), 0).UTC())
+		if i < cut {
+			h.Assert(gerr != nil, "backlog-handed-over-slot-is-deleted")
+		} else {
+			h.Assert(gerr == nil && len(got.Unlocks) == counts[i] && got.Unlocks[0].Id == firstID[i], "backlog-immature-slot-kept-whole")
+		}
+	}
+	// a second sweep at the same block time finds nothing left to move
+	vhMust(k.DequeueMatureUnlocks(ctx))
+	again, aerr := k.EthTxQueue.Get(ctx)
+	vhMust(aerr)
+	h.Assert(len(again.Unlocks) == want, "backlog-second-sweep-moves-nothing")
+	h.Reach("end")
+}
